@@ -70,6 +70,72 @@ func genC09(r *Rng, i int) *WCase {
 	return c
 }
 
+// genC09Directed: partitions that meet the writer's buffers exactly.  Dynamic levels: a Flush taken
+// when the input buffer holds between 2W and 2W+257 bytes, then writes that exactly fill the rest
+// of the buffer (in one piece in one partition, in small pieces or as part of a larger write in the
+// other).  Huffman-only: a write that ends when exactly 65535 / 65536 / 65537 bytes are buffered
+// with more to follow, against one large write.
+func genC09Directed(r *Rng, i int) *WCase {
+	s := pickSetting(r, []string{"flate", "flate", "flate", "gzip", "zlib"}, true)
+	c := &WCase{Prop: "C09", ID: fmt.Sprintf("C09-d%d", i), Set: s}
+	pieces := func(n int) []Op {
+		var ops []Op
+		switch r.Intn(3) {
+		case 0:
+			for j := 0; j < n; j++ {
+				ops = append(ops, Op{K: "w", N: 1})
+			}
+		case 1:
+			for n > 0 {
+				k := 1 + r.Intn(n)
+				ops = append(ops, Op{K: "w", N: k})
+				n -= k
+			}
+		default:
+			ops = append(ops, Op{K: "w", N: n})
+		}
+		return ops
+	}
+	if s.Level == -2 {
+		first := 65536*(1+r.Intn(2)) + r.Range(-1, 1)
+		rest := r.Pick([]int{1, 2, 700, 66000})
+		n := first + rest
+		c.Datas = []DataSpec{{Gen: r.PickS([]string{"text", "rnd", "uni3", "fib"}), Seed: r.U64(), N: n}}
+		c.Ops = []Op{{K: "w", N: first}, {K: "w", N: rest}, {K: "c"}}
+		c.Ops2 = []Op{{K: "w", N: n}, {K: "c"}}
+		if r.Intn(3) == 0 {
+			c.Ops2 = []Op{{K: "w", N: first - 1}, {K: "w", N: rest + 1}, {K: "c"}}
+		}
+		return c
+	}
+	w := s.Window()
+	k := r.Intn(258)
+	fill := 258 - k
+	extra := r.Pick([]int{0, 1, 300, 5000})
+	n := 2*w + 258 + extra
+	c.Datas = []DataSpec{{Gen: r.PickS([]string{"text", "rnd", "uni3", "run", "plant300"}), Seed: r.U64(), N: n}}
+	c.Ops = append([]Op{{K: "w", N: 2*w + k}, {K: "f"}, {K: "w", N: fill}}, append(pieces(extra), Op{K: "c"})...)
+	var o2 []Op
+	o2 = append(o2, pieces(2*w+k)[:0]...)
+	if r.Bool() {
+		o2 = append(o2, Op{K: "w", N: w}, Op{K: "w", N: w + k})
+	} else {
+		o2 = append(o2, Op{K: "w", N: 2*w + k})
+	}
+	o2 = append(o2, Op{K: "f"})
+	switch r.Intn(3) {
+	case 0:
+		o2 = append(o2, Op{K: "w", N: fill + extra})
+	case 1:
+		o2 = append(o2, pieces(fill)...)
+		o2 = append(o2, pieces(extra)...)
+	default:
+		o2 = append(o2, pieces(fill + extra)...)
+	}
+	c.Ops2 = append(o2, Op{K: "c"})
+	return c
+}
+
 func sortInts(a []int) {
 	for i := 1; i < len(a); i++ {
 		for j := i; j > 0 && a[j-1] > a[j]; j-- {
@@ -440,9 +506,11 @@ func periodHasCollision(period []byte, level int) bool {
 	return false
 }
 
-func checkC20(rep *Report, c *WCase, periodic int) {
+func checkC20(rep *Report, pool *DriverPool, c *WCase, periodic int) {
 	datas := c.datas()
 	obs := RunW(c.Set, false, datas, c.Ops, 0)
+	// the cost theorems (C20_cost_identity, C20_block_cost) are about the writer model: tie it here too
+	compareModel(rep, pool, c, c.Set, datas, c.Ops, 0, obs)
 	n := len(datas[0])
 	rep.Eval(fmt.Sprintf("%s|%s|%d|%d", c.Set, c.Datas[0].Gen, c.Datas[0].Seed%1000, n), c.sample())
 	rep.Count("data:" + c.Datas[0].Gen)
